@@ -161,3 +161,18 @@ def edge_scalar(k, mul, G, encode, n=_N, tries=3000):
             return k
         k = k % (n - 1) + 1
     return k
+
+
+LOOKALIKES = [
+    b"ab", b"00ff00ff", b"DEADBEEF", b"0x1234", b"0", b"1", b"\n", b" ", b"\r\n", b"\t", b" abc\n", b"\x00abc\x00", b"abc\x00", b"\x00",
+    b"2cf24dba5fb0a30e26e83b2ac5b9e29e1b161e5c1fa7425e73043362938b9824",  # the text of a SHA-256 digest (64 hex characters)
+    b"0279be667ef9dcbbac55a06295ce870b07029bfcdb2dce28d959f2815b16f81798",  # the text of a public key
+    b"True", b"None", b"[]", b"{}", b"bc1qw508d6qejxtdg4y5r3zarvary0c5xw7kv8f3t4", b"1A1zP1eP5QGefi2DMPTfTL5SLmv7DivfNa",
+    b"\xef\xbb\xbfabc", b"abc\xff", b"\x80", b"=", b"-----BEGIN",
+]
+
+
+def lookalike_bytes():
+    """Opaque byte strings that look like text a convenience layer might want to interpret: hex digits, whitespace and
+    NUL at the ends, literals, addresses, a UTF-8 byte order mark."""
+    return st.sampled_from(LOOKALIKES)
